@@ -121,12 +121,19 @@ type ownState struct {
 	frees   map[int]bool                  // out: indexes of this function's params whose caller-owned array was put
 	params  []types.Object
 	export  bool
+	defers  []deferredPut     // pool puts registered with defer (arguments evaluated at the defer statement)
 	places  map[string]tokSet // "v:<objptr>" or "*v:<objptr>"
 	freed   tokSet
 	freedAt map[int]token.Pos
 	next    int
 	viol    []ownViol
 	names   map[int]string
+}
+
+type deferredPut struct {
+	toks tokSet
+	pos  token.Pos
+	arg  string
 }
 
 type ownViol struct {
@@ -398,7 +405,24 @@ func (s *ownState) step(n ast.Node, fd *ast.FuncDecl, ptrParams []types.Object) 
 		s.exit(x.Pos(), ptrParams)
 	case ast.Expr:
 		s.eval(x, true)
-	case *ast.IncDecStmt, *ast.DeferStmt, *ast.GoStmt, *ast.SendStmt:
+	case *ast.DeferStmt:
+		if pf := poolFnOf(s.p, x.Call, poolPuts); pf != nil && len(x.Call.Args) == 1 {
+			var toks tokSet
+			arg := ast.Unparen(x.Call.Args[0])
+			if id, ok := arg.(*ast.Ident); ok && (pf.kind == "slice" || pf.kind == "buffer") {
+				if o := s.p.ObjectOf(id); o != nil {
+					toks = s.places[placeKey(o, true)]
+				}
+			} else {
+				toks = s.eval(arg, false)
+			}
+			cp := tokSet{}
+			for t := range toks {
+				cp[t] = true
+			}
+			s.defers = append(s.defers, deferredPut{cp, x.Pos(), exprStr(arg)})
+		}
+	case *ast.IncDecStmt, *ast.GoStmt, *ast.SendStmt:
 	}
 }
 
@@ -427,6 +451,18 @@ func (s *ownState) callerPut(t int, pos token.Pos, via string) {
 }
 
 func (s *ownState) exit(pos token.Pos, ptrParams []types.Object) {
+	// deferred puts run now
+	for i := len(s.defers) - 1; i >= 0; i-- {
+		d := s.defers[i]
+		for t := range d.toks {
+			if s.freed[t] {
+				s.viol = append(s.viol, ownViol{"O1", d.pos, "the deferred put of `" + d.arg + "` (" + s.names[t] + ") runs on a path that already put the same buffer back at " + s.p.Pos(s.freedAt[t]) + ": the pool then holds it twice and two later users share one buffer"})
+			}
+			s.freed[t] = true
+			s.freedAt[t] = d.pos
+		}
+	}
+	s.defers = nil
 	var fks []string
 	for k := range s.places {
 		if strings.HasPrefix(k, "field:") {
